@@ -18,6 +18,7 @@ func Run(c *core.Check) {
 	c.Assumptions = []string{"own strict path-data parser (SVG 1.1 grammar) and interpreter; tolerance 1e-9 relative to the coordinate scale", "zero-length lines and curves whose control points all lie on end points may be simplified, nothing else"}
 	runPaths(c)
 	runDocs(c)
+	runDefaultAttrs(c)
 	runSequences(c)
 }
 
